@@ -735,19 +735,6 @@ def pattern_shli32_1_(context, tree, c0):
     return d
 
 
-@rvcisa.pattern(
-    "reg",
-    "SHRI32(reg, CONSTI32)",
-    size=1,
-    condition=lambda t: t.children[1].value < 16,
-)
-def pattern_shri32(context, tree, c0):
-    d = context.new_reg(RiscvRegister)
-    c1 = tree.children[1].value
-    context.emit(Srliv(d, c0, c1))
-    return d
-
-
 @rvcisa.pattern("reg", "LDRU32(mem)", size=1)
 @rvcisa.pattern("reg", "LDRI32(mem)", size=1)
 def pattern_ldri32(context, tree, c0):
